@@ -28,15 +28,53 @@ import (
 //   untyped  Context.BindAndValidate
 //   handler  the untyped API handler
 // Consumers are instrumented per media type.
+//
+// kind "hist": 2-5 requests answered one after the other by ONE Context of an API with several operations (the same path
+// under different methods, other paths), each operation with its own consumes list; every request goes through one of the
+// three entry points; every answer is compared with the model of the single request over the list of the operation it
+// addresses AND with the answer a fresh Context gives to the same request.
+
+// one operation of a hist API
+type c06Op struct {
+	Method   string `json:"method"`
+	Path     string `json:"path"` // /x | /y | /x/{id}
+	ID       string `json:"id,omitempty"`
+	Declared []Bs   `json:"declared"`
+}
+
+// one request of a history
+type c06Step struct {
+	Op    int    `json:"op"`
+	CT    []Bs   `json:"ct"`
+	Body  string `json:"body"`
+	Entry int    `json:"entry"` // 0 BindValidRequest, 1 BindAndValidate, 2 the untyped handler
+}
+
+type c06StepObs struct {
+	Consumes []Bs   `json:"consumes"`
+	Keys     []Bs   `json:"keys"`
+	HasBody  bool   `json:"has_body"`
+	Asked    Bs     `json:"asked"`
+	Parse    *Bs    `json:"parse"`
+	Reparse  *Bs    `json:"reparse"`
+	Hist     c06Res `json:"hist"` // inside the history (for the handler: Status 0 = 200)
+	HistRan  bool   `json:"hist_ran"`
+	Fresh    c06Res `json:"fresh"` // the same request on a fresh Context
+	FreshRan bool   `json:"fresh_ran"`
+}
 
 type c06In struct {
-	Declared   []Bs   `json:"declared"`
-	Global     bool   `json:"global,omitempty"`
-	Default    Bs     `json:"default"`
-	Registered []Bs   `json:"registered"`
-	Method     string `json:"method"`
-	CT         []Bs   `json:"ct"`   // Content-Type header lines (none = absent)
-	Body       string `json:"body"` // cl | cl0hdr | chunked | chunked-empty | none
+	Kind       string    `json:"kind,omitempty"` // "" (one request, three entry points) | hist
+	Ops        []c06Op   `json:"ops,omitempty"`
+	Steps      []c06Step `json:"steps,omitempty"`
+	Path       string    `json:"path,omitempty"` // request path, /x when empty
+	Declared   []Bs      `json:"declared"`
+	Global     bool      `json:"global,omitempty"`
+	Default    Bs        `json:"default"`
+	Registered []Bs      `json:"registered"`
+	Method     string    `json:"method"`
+	CT         []Bs      `json:"ct"`   // Content-Type header lines (none = absent)
+	Body       string    `json:"body"` // cl | cl0hdr | chunked | chunked-empty | none
 }
 
 type c06Res struct {
@@ -45,21 +83,22 @@ type c06Res struct {
 }
 
 type c06Obs struct {
-	Consumes  []Bs   `json:"consumes"`
-	Keys      []Bs   `json:"keys"`
-	HasBody   bool   `json:"has_body"`
-	Asked     Bs     `json:"asked"`   // the value the harness itself handed to mime.ParseMediaType
-	Parse     *Bs    `json:"parse"`   // ... and the media type answered (nil = error); independent of runtime.ContentType
-	Reparse   *Bs    `json:"reparse"` // ParseMediaType on that media type again
-	CTImpl    *Bs    `json:"ct_impl"` // what runtime.ContentType answers for the request's header (nil = error)
-	T, U      c06Res `json:"-"`
-	TJ        c06Res `json:"typed"`
-	UJ        c06Res `json:"untyped"`
-	HStatus   int    `json:"h_status"`
-	HCons     *Bs    `json:"h_cons"`
-	HRan      bool   `json:"h_ran"`
-	Panic     string `json:"panic,omitempty"`
-	RouteMiss bool   `json:"route_miss,omitempty"`
+	Consumes  []Bs         `json:"consumes"`
+	Keys      []Bs         `json:"keys"`
+	HasBody   bool         `json:"has_body"`
+	Asked     Bs           `json:"asked"`   // the value the harness itself handed to mime.ParseMediaType
+	Parse     *Bs          `json:"parse"`   // ... and the media type answered (nil = error); independent of runtime.ContentType
+	Reparse   *Bs          `json:"reparse"` // ParseMediaType on that media type again
+	CTImpl    *Bs          `json:"ct_impl"` // what runtime.ContentType answers for the request's header (nil = error)
+	T, U      c06Res       `json:"-"`
+	TJ        c06Res       `json:"typed"`
+	UJ        c06Res       `json:"untyped"`
+	HStatus   int          `json:"h_status"`
+	HCons     *Bs          `json:"h_cons"`
+	HRan      bool         `json:"h_ran"`
+	Panic     string       `json:"panic,omitempty"`
+	RouteMiss bool         `json:"route_miss,omitempty"`
+	Steps     []c06StepObs `json:"steps,omitempty"` // hist
 }
 
 type c06 struct{}
@@ -85,6 +124,7 @@ func (c06) Decode(raw json.RawMessage) (any, error) {
 func (c06) Enumerate(tier string) []any {
 	// every pool type against every single-entry and wildcard list, three body signals
 	var out []any
+	out = append(out, c06EnumerateHist()...)
 	lists := [][]Bs{{"application/json"}, {"text/plain"}, {"application/*"}, {"*/*"}, {"text/*", "application/json"}, {}}
 	for _, l := range lists {
 		for _, ct := range []string{"application/json", "text/plain", "application/xml", "image/png", "APPLICATION/JSON", "text/plain; charset=utf-8", "", "a/", "text",
@@ -214,7 +254,110 @@ func c06Header(r *rand.Rand) []Bs {
 	return lines
 }
 
+var c06HistSlots = [][2]string{{"POST", "/x"}, {"PUT", "/x"}, {"PATCH", "/x"}, {"DELETE", "/x"}, {"GET", "/x"}, {"POST", "/y"}, {"PUT", "/y"},
+	{"PUT", "/x/{id}"}, {"PATCH", "/x/{id}"}, {"POST", "/x/{id}"}}
+
+// c06EnumerateHist: operations on one path (and two elsewhere) with different consumes lists; every ordered pair of the
+// first four, the same Content-Type sent to both, every combination of entry points worth telling apart; some triples.
+func c06EnumerateHist() []any {
+	ops := []c06Op{
+		{Method: "PUT", Path: "/x", Declared: []Bs{"application/json"}},
+		{Method: "PATCH", Path: "/x", Declared: []Bs{"application/xml"}},
+		{Method: "POST", Path: "/x", Declared: []Bs{"text/*", "application/xml; charset=utf-8"}},
+		{Method: "DELETE", Path: "/x", Declared: []Bs{}},
+		{Method: "PUT", Path: "/y", Declared: []Bs{"text/plain"}},
+		{Method: "PUT", Path: "/x/{id}", Declared: []Bs{"text/csv"}},
+	}
+	var out []any
+	n := 0
+	entries := [][2]int{{0, 0}, {1, 1}, {2, 2}, {0, 1}, {2, 0}, {1, 2}}
+	for a := 0; a < 4; a++ {
+		for b := 0; b < 4; b++ {
+			if a == b {
+				continue
+			}
+			for _, ct := range []string{"application/json", "application/xml", "text/plain"} {
+				for _, e := range entries {
+					n++
+					in := c06In{Kind: "hist", Ops: ops, Default: Bs([]string{"application/json", "", "text/csv"}[n%3]),
+						Registered: []Bs{"application/json", "text/plain", "application/xml", "text/csv"}}
+					body := []string{"cl", "chunked"}[n%2]
+					in.Steps = []c06Step{{Op: a, CT: []Bs{Bs(ct)}, Body: body, Entry: e[0]}, {Op: b, CT: []Bs{Bs(ct)}, Body: body, Entry: e[1]}}
+					if n%4 == 0 { // ... and the first operation once more
+						in.Steps = append(in.Steps, c06Step{Op: a, CT: []Bs{Bs(ct)}, Body: body, Entry: e[1]})
+					}
+					out = append(out, in)
+				}
+			}
+		}
+	}
+	// same method, different paths; three and four operations in a row
+	for _, order := range [][]int{{0, 4}, {4, 0}, {0, 5, 4}, {5, 0}, {1, 5}, {0, 1, 2, 3}, {3, 2, 1, 0}, {2, 0, 2, 1}} {
+		for _, ct := range []string{"application/json", "text/plain", "text/csv; charset=utf-8", "APPLICATION/XML"} {
+			n++
+			in := c06In{Kind: "hist", Ops: ops, Default: "application/json", Registered: []Bs{"application/json", "text/plain", "application/xml", "text/csv"}}
+			for k, o := range order {
+				in.Steps = append(in.Steps, c06Step{Op: o, CT: []Bs{Bs(ct)}, Body: "cl", Entry: (n + k) % 3})
+			}
+			out = append(out, in)
+		}
+	}
+	return out
+}
+
+// c06GenHist: an API with 2-4 operations (half of the time all on one path), each with a consumes list of its own, and
+// 2-5 requests whose Content-Type is mostly one of the types some operation lists, so that admission differs between
+// neighbouring requests only through the operation addressed.
+func c06GenHist(r *rand.Rand) c06In {
+	cfg := c06Config(r)
+	in := c06In{Kind: "hist", Default: cfg.Default, Registered: cfg.Registered}
+	nops := 2 + r.Intn(3)
+	slots := r.Perm(len(c06HistSlots))
+	if r.Intn(2) == 0 {
+		slots = r.Perm(5)
+	}
+	for i := 0; i < nops; i++ {
+		sl := c06HistSlots[slots[i]]
+		op := c06Op{Method: sl[0], Path: sl[1], Declared: c06Config(r).Declared}
+		if r.Intn(3) == 0 {
+			op.ID = fmt.Sprintf("op%d", i)
+		}
+		in.Ops = append(in.Ops, op)
+	}
+	var listed []string
+	for _, op := range in.Ops {
+		for _, e := range op.Declared {
+			if !strings.Contains(string(e), "*") {
+				listed = append(listed, strings.SplitN(string(e), ";", 2)[0])
+			}
+		}
+	}
+	nsteps := 2 + r.Intn(4)
+	var ct []Bs
+	for i := 0; i < nsteps; i++ {
+		st := c06Step{Op: r.Intn(nops), Entry: r.Intn(3)}
+		switch k := r.Intn(10); {
+		case k < 3 && ct != nil: // the same header as the request before
+		case k < 7 && len(listed) > 0:
+			v := c06Case(r, listed[r.Intn(len(listed))])
+			if r.Intn(3) == 0 {
+				v += "; charset=utf-8"
+			}
+			ct = []Bs{Bs(v)}
+		default:
+			ct = c06Header(r)
+		}
+		st.CT = ct
+		st.Body = []string{"cl", "cl", "cl", "chunked", "chunked", "cl0hdr", "chunked-empty", "none"}[r.Intn(8)]
+		in.Steps = append(in.Steps, st)
+	}
+	return in
+}
+
 func (c06) Gen(r0 *rand.Rand, tier string, i int) any {
+	if i%10 == 9 {
+		return c06GenHist(r0)
+	}
 	// the route configuration comes from a pool of 300 (quick) / 3000 (thorough) configurations derived from the
 	// seed, so that built APIs are reused; the request is drawn afresh
 	pool := 300
@@ -340,7 +483,11 @@ func (c c06Reader) Read(p []byte) (int, error) { return c.r.Read(p) }
 func (c06Reader) Close() error                 { return nil }
 
 func c06Request(in c06In) *http.Request {
-	req := httptest.NewRequest(in.Method, "/x", nil)
+	path := in.Path
+	if path == "" {
+		path = "/x"
+	}
+	req := httptest.NewRequest(in.Method, path, nil)
 	payload := []byte(`{"a":1}`)
 	switch in.Body {
 	case "cl":
@@ -410,8 +557,163 @@ func (b c06Binder) BindRequest(r *http.Request, route *middleware.MatchedRoute) 
 	return nil
 }
 
+// ---------- histories on one Context ----------
+
+func c06BuildHist(in c06In) *c06Built {
+	paths := map[string]any{}
+	for _, op := range in.Ops {
+		params := []any{map[string]any{"name": "b", "in": "body", "schema": map[string]any{}}}
+		if strings.Contains(op.Path, "{id}") {
+			params = append(params, map[string]any{"name": "id", "in": "path", "type": "string", "required": true})
+		}
+		o := map[string]any{"parameters": params, "responses": map[string]any{"200": map[string]any{"description": "ok"}}}
+		if op.ID != "" {
+			o["operationId"] = op.ID
+		}
+		if len(op.Declared) > 0 {
+			o["consumes"] = bsList(op.Declared)
+		}
+		item, _ := paths[op.Path].(map[string]any)
+		if item == nil {
+			item = map[string]any{}
+			paths[op.Path] = item
+		}
+		item[strings.ToLower(op.Method)] = o
+	}
+	doc := map[string]any{
+		"swagger": "2.0", "info": map[string]any{"title": "t", "version": "1"},
+		"produces": []string{"application/json"}, "paths": paths,
+	}
+	raw, _ := json.Marshal(doc)
+	spec, err := loads.Analyzed(json.RawMessage(raw), "")
+	if err != nil {
+		panic(err)
+	}
+	env := &c06Env{}
+	api := untyped.NewAPI(spec)
+	api.DefaultConsumes = string(in.Default)
+	for _, mt := range append([]Bs{"application/json"}, in.Registered...) {
+		key := string(mt)
+		api.RegisterConsumer(key, runtime.ConsumerFunc(func(rd io.Reader, data interface{}) error {
+			env.log = append(env.log, "consume:"+key)
+			_, _ = io.Copy(io.Discard, rd)
+			return nil
+		}))
+	}
+	api.RegisterProducer("application/json", runtime.JSONProducer())
+	for _, op := range in.Ops {
+		api.RegisterOperation(strings.ToLower(op.Method), op.Path, runtime.OperationHandlerFunc(func(interface{}) (interface{}, error) {
+			env.log = append(env.log, "handle")
+			return map[string]string{"r": "ok"}, nil
+		}))
+	}
+	b := &c06Built{env: env, ctx: middleware.NewContext(spec, api, nil)}
+	b.h = b.ctx.RoutesHandler(nil)
+	return b
+}
+
+// c06StepIn is the request of one step, as a single-request input.
+func c06StepIn(in c06In, st c06Step) c06In {
+	op := in.Ops[st.Op]
+	return c06In{Method: op.Method, Path: strings.ReplaceAll(op.Path, "{id}", "7"), CT: st.CT, Body: st.Body}
+}
+
+// c06Enter sends the request through one entry point of b: (first error status, consumer that ran, went through).
+func c06Enter(b *c06Built, rq c06In, entry int) (c06Res, bool) {
+	env := b.env
+	env.log = nil
+	var res c06Res
+	ran := false
+	p, _ := recoverTo(func() {
+		switch entry {
+		case 0:
+			mr, r, _ := b.ctx.RouteInfo(c06Request(rq))
+			err := b.ctx.BindValidRequest(r, mr, c06Binder{env})
+			res = c06Res{Status: c06FirstCode(err), Cons: c06Consumed(env.log)}
+			ran = err == nil
+		case 1:
+			mr, r, _ := b.ctx.RouteInfo(c06Request(rq))
+			_, _, err := b.ctx.BindAndValidate(r, mr)
+			res = c06Res{Status: c06FirstCode(err), Cons: c06Consumed(env.log)}
+			ran = err == nil
+		default:
+			rec := httptest.NewRecorder()
+			b.h.ServeHTTP(rec, c06Request(rq))
+			res = c06Res{Status: rec.Code, Cons: c06Consumed(env.log)}
+			if res.Status == 200 {
+				res.Status = 0
+			}
+			for _, l := range env.log {
+				if l == "handle" {
+					ran = true
+				}
+			}
+		}
+	})
+	if p {
+		res = c06Res{Status: 598}
+		ran = false
+	}
+	return res, ran
+}
+
+func c06RunHist(in c06In) any {
+	var obs c06Obs
+	p, m := recoverTo(func() {
+		b := c06BuildHist(in)
+		for _, st := range in.Steps {
+			rq := c06StepIn(in, st)
+			var so c06StepObs
+			mr, _, ok := b.ctx.RouteInfo(c06Request(rq))
+			if !ok {
+				panic("route not found")
+			}
+			so.Consumes = toBs(mr.Consumes)
+			for k := range mr.Consumers {
+				so.Keys = append(so.Keys, Bs(k))
+			}
+			sort.Slice(so.Keys, func(i, j int) bool { return so.Keys[i] < so.Keys[j] })
+			so.HasBody = runtime.HasBody(c06Request(rq))
+			asked := ""
+			if len(st.CT) > 0 {
+				asked = string(st.CT[0])
+			}
+			if asked == "" {
+				asked = "application/octet-stream"
+			}
+			so.Asked = Bs(asked)
+			if mt, _, err := mime.ParseMediaType(asked); err == nil {
+				pb := Bs(mt)
+				so.Parse = &pb
+				if mt2, _, err := mime.ParseMediaType(mt); err == nil {
+					rp := Bs(mt2)
+					so.Reparse = &rp
+				}
+			}
+			so.Hist, so.HistRan = c06Enter(b, rq, st.Entry)
+			obs.Steps = append(obs.Steps, so)
+		}
+		// the same requests, each on a Context that has answered nothing before (the first one already was)
+		for i, st := range in.Steps {
+			so := &obs.Steps[i]
+			if i == 0 {
+				so.Fresh, so.FreshRan = so.Hist, so.HistRan
+				continue
+			}
+			so.Fresh, so.FreshRan = c06Enter(c06BuildHist(in), c06StepIn(in, st), st.Entry)
+		}
+	})
+	if p {
+		obs.Panic = m
+	}
+	return obs
+}
+
 func (c06) Run(inAny any) any {
 	in := inAny.(c06In)
+	if in.Kind == "hist" {
+		return c06RunHist(in)
+	}
 	var obs c06Obs
 	b := c06Build(in)
 	env := b.env
@@ -516,14 +818,40 @@ func c06OptStatus(s int) string {
 	return fmt.Sprintf("(Some %d)", s)
 }
 
+func c06BodyFlags(body string) (clPos, hdr, nonempty bool) {
+	return body == "cl", body == "cl0hdr", body == "cl" || body == "chunked" || body == "cl0hdr"
+}
+
+func c06CoqHist(in c06In, obs c06Obs) string {
+	head := fmt.Sprintf("CHist %s %s ", coqBytes(string(in.Default)), coqBytesList(c06APIConsumers(in)))
+	if obs.Panic != "" || len(obs.Steps) != len(in.Steps) {
+		return head + "[]" // the set-up failed: an empty history never corresponds
+	}
+	idx := make([]int, len(in.Steps))
+	for i := range idx {
+		idx[i] = i
+	}
+	return head + coqList(idx, func(i int) string {
+		st, so := in.Steps[i], obs.Steps[i]
+		clPos, hdr, nonempty := c06BodyFlags(st.Body)
+		return fmt.Sprintf("(HStep %s %s %s %s %s %s %s %s %s %s %s %d %s %s %s %s %s %s)",
+			coqBytesList(bsList(in.Ops[st.Op].Declared)), coqBytesList(bsList(so.Consumes)), coqBytesList(bsList(so.Keys)),
+			coqBool(clPos), coqBool(hdr), coqBool(nonempty), coqBool(so.HasBody),
+			coqBytesList(bsList(st.CT)), coqBytes(string(so.Asked)), c06OptBytes(so.Parse), c06OptBytes(so.Reparse), st.Entry,
+			c06OptStatus(so.Hist.Status), c06OptBytes(so.Hist.Cons), coqBool(so.HistRan),
+			c06OptStatus(so.Fresh.Status), c06OptBytes(so.Fresh.Cons), coqBool(so.FreshRan))
+	})
+}
+
 func (c06) Coq(inAny any, obsAny any) string {
 	in, obs := inAny.(c06In), obsAny.(c06Obs)
+	if in.Kind == "hist" {
+		return c06CoqHist(in, obs)
+	}
 	if obs.RouteMiss {
 		return "CGate [] [] [] [] [] false false false true [] [] None None None None None None None 0 None false"
 	}
-	clPos := in.Body == "cl"
-	hdr := in.Body == "cl0hdr"
-	nonempty := in.Body == "cl" || in.Body == "chunked" || in.Body == "cl0hdr"
+	clPos, hdr, nonempty := c06BodyFlags(in.Body)
 	return fmt.Sprintf("CGate %s %s %s %s %s %s %s %s %s %s %s %s %s %s %s %s %s %s %d %s %s",
 		coqBytesList(bsList(in.Declared)), coqBytes(string(in.Default)), coqBytesList(c06APIConsumers(in)),
 		coqBytesList(bsList(obs.Consumes)), coqBytesList(bsList(obs.Keys)),
@@ -547,8 +875,57 @@ func c06APIConsumers(in c06In) []string {
 
 func (c06) Classify(inAny any, obsAny any) []string { return nil }
 
+// c06HistCategory: number of requests, whether two of them address one path under different methods, how many different
+// consumes lists are met, the entry points used, the answers.
+func c06HistCategory(in c06In, obs c06Obs) (string, bool) {
+	paths := map[string]map[string]bool{}
+	lists := map[string]bool{}
+	entries := map[int]bool{}
+	for _, st := range in.Steps {
+		op := in.Ops[st.Op]
+		if paths[op.Path] == nil {
+			paths[op.Path] = map[string]bool{}
+		}
+		paths[op.Path][op.Method] = true
+		lists[strings.Join(bsList(op.Declared), ",")] = true
+		entries[st.Entry] = true
+	}
+	same := "other-paths"
+	for _, ms := range paths {
+		if len(ms) > 1 {
+			same = "same-path"
+		}
+	}
+	var es, as []string
+	for e := range entries {
+		es = append(es, []string{"typed", "untyped", "handler"}[e])
+	}
+	sort.Strings(es)
+	seen := map[string]bool{}
+	bodies := 0
+	for _, so := range obs.Steps {
+		a := fmt.Sprint(so.Hist.Status)
+		if so.Hist.Cons != nil {
+			a = "decoded"
+		}
+		if so.HasBody {
+			bodies++
+		}
+		if !seen[a] {
+			seen[a] = true
+			as = append(as, a)
+		}
+	}
+	sort.Strings(as)
+	cat := fmt.Sprintf("hist/steps%d/%s/lists%d/%s/%s", len(in.Steps), same, len(lists), strings.Join(es, "+"), strings.Join(as, "+"))
+	return cat, len(in.Steps) >= 2 && len(lists) >= 2 && bodies >= 2
+}
+
 func (c06) Category(inAny any, obsAny any) (string, bool) {
 	in, obs := inAny.(c06In), obsAny.(c06Obs)
+	if in.Kind == "hist" {
+		return c06HistCategory(in, obs)
+	}
 	wild, params := false, false
 	for _, e := range obs.Consumes {
 		if strings.Contains(string(e), "*") {
